@@ -373,6 +373,10 @@ def label_job(job):
     doc = build_label_doc(ns, labs, axis)
     model = doc._model
     plan, used = [], {}
+    tabs_all = [(si + 1, ti + 1) for si in range(len(ns)) for ti in range(len(ns[si]))]
+    if idx % 3 == 1 and len(tabs_all) >= 2:
+        # the last table hosts nothing in these jobs: it is the one edited between the observations (see below)
+        refs = [r for r in refs if tuple(r[0]) != tabs_all[-1]]
     for (host, target, i, j, ab, single) in refs:
         host, target = tuple(host), tuple(target)
         htb = doc.sheets[host[0] - 1].tables[host[1] - 1]
@@ -413,6 +417,21 @@ def label_job(job):
             e.update(parse_line_text(text, axis, snames, p["single"], {x for row in names for x in row}))
             events.append(e)
     observe(doc, "open")
+    if idx % 3 == 1:
+        # the labels a reference is printed with are the labels as they are NOW: on every table that hosts no reference the first
+        # line is deleted and an (unlabelled) one appended, so every label moves by one line while the stored targets keep their index
+        hosts = {tuple(p["host"]) for p in plan}
+        for si, sh in enumerate(doc.sheets):
+            for ti, tb in enumerate(sh.tables):
+                if (si + 1, ti + 1) in hosts:
+                    continue
+                if axis == "cols":
+                    tb.delete_column(1, start_col=0)
+                    tb.add_column(1)
+                else:
+                    tb.delete_row(1, start_row=0)
+                    tb.add_row(1)
+        observe(doc, "edited")
     if reopen:
         path = os.path.join(scratch, "c09l-%d-%d.numbers" % (os.getpid(), idx))
         try:
